@@ -121,14 +121,17 @@ CLAIMED["C13"] = dict(
 CLAIMED["C24"] = dict(
     category="exploration",
     text="Bounded (exhaustive within the bound): the real DominanceInfo and PostOrderIterator are run on EVERY control-flow graph with <= 3 (quick) / "
-         "<= 4 (thorough) blocks and <= 2 successors per block (self-loops, multi-edges, unreachable blocks) plus seeded random graphs up to 8 blocks, "
-         "and compared with the path-based definitions (dominates(a,b) for every reachable b; post-order = reachable blocks exactly once, entry last). "
-         "The table readers dominates / strictly_dominates / _strictly_dominates_block are additionally under discharged contracts (pyvc + z3). "
-         "Exploration is the honest level: the fixpoint of DominanceInfo.__init__ and the stack machine of PostOrderIterator are not proved.",
-    note="Bounded stand-in, never counted as proved; fixpoint completeness/soundness of DominanceInfo.__init__ and PostOrderIterator.__next__ are outside "
-         "the deductive subset (sets of sets, tuple stack).",
-    design="§4 C24",
-    technique="bounded exhaustive runtime-contract check against graph definitions (stand-in) + discharged contracts on the table readers",
+         "<= 4 (thorough) blocks and <= 2 successors per block (self-loops, multi-edges, unreachable blocks, terminators of unregistered dialects) plus "
+         "seeded random graphs up to 8 blocks, and compared with the path-based definitions (dominates(a,b) for every reachable b; post-order = "
+         "reachable blocks exactly once, entry last). Discharged contracts (pyvc + z3): the table readers dominates / strictly_dominates / "
+         "_strictly_dominates_block, and - for graphs of ANY size - PostOrderIterator.__init__/__next__ with an object invariant over the pair "
+         "stack and the seen set: each block yielded at most once, only reachable blocks, StopIteration only when the yielded set equals the seen "
+         "set and is closed under successors (so it is exactly the reachable set), the start block last (partial correctness). Exploration stays "
+         "the honest level for the property as a whole: the set-of-sets fixpoint of DominanceInfo.__init__ is not proved.",
+    note="Dominance: bounded stand-in only, never counted as proved. Post-order: proved up to termination, with trusted models of dict.fromkeys and of the "
+         "two comprehensions bound to their exact source text.",
+    design="§4 C24, §9",
+    technique="bounded exhaustive runtime-contract check against graph definitions (stand-in) + discharged contracts on the dominance table readers and on PostOrderIterator (object invariant, ghost history)",
 )
 
 CLAIMED["C26"] = dict(
